@@ -96,6 +96,19 @@ func (in *objIndex) UnmarshalJSON(data []byte) error {
 		return err
 	}
 
+	// a damaged schema file must not leave nil maps or nil field indexes behind
+	if tmp.Fields == nil {
+		tmp.Fields = make(map[string]*fieldIndex)
+	}
+	if tmp.ObjectIds == nil {
+		tmp.ObjectIds = make(map[uint64]string)
+	}
+	for fn, fi := range tmp.Fields {
+		if fi == nil {
+			return fmt.Errorf("%w: field index %s is null", ErrIndexCorrupted, fn)
+		}
+	}
+
 	in.i = 0
 	in.Fields = tmp.Fields
 	in.ObjectIds = tmp.ObjectIds
@@ -248,6 +261,12 @@ func (in *objIndex) control() error {
 		}
 		if in.Fields[fn].Len() != in.len() {
 			return fmt.Errorf("index and fields index must have the same size, len(index)=%d len(index[%s])=%d", in.len(), fn, in.Fields[fn].Len())
+		}
+		// every object must have exactly one entry in every field index
+		for id := range in.ObjectIds {
+			if _, ok := in.Fields[fn].objectIds[id]; !ok {
+				return fmt.Errorf("field index %s has no entry for object id %d", fn, id)
+			}
 		}
 	}
 	return nil
